@@ -157,9 +157,21 @@ func init() {
 	register("C02", "", ruleRouteLookupExemptions)
 	register("C01", "", ruleRouteLookupExemptions)
 	register("C12", "", ruleDedupConditions)
-	for _, c := range []string{"C01", "C02", "C08", "C13", "C14", "C16", "C17"} {
-		register(c, "", ruleMemoKey)
+	// R3k.memo is registered where an answer remembered under too small a key breaks a clause of
+	// the property, and only for the memos on that property's path (fifth audit: the module-wide
+	// registration made C14 and C16 speak about the handler's queryers):
+	//   C01/C02 — a stale verdict or insertion point on the request path changes the data, or drops a sub-request;
+	//   C08     — an answer remembered for one operation of a batch is handed to another ("as if sent alone");
+	//   C13     — what a repeated operation gets depends on what was asked before it;
+	//   C14     — the plan cache itself: the memo in the caching planner is the property's subject;
+	//   C17     — an event is stitched as a query is (C01), on the per-event path.
+	// C16 (introspection answers) has no clause about remembered answers and no memo on its path: dropped.
+	reqMemo := ruleMemoKeyIn("on the request path", "pebbles.(*Gateway).Handler")
+	for _, c := range []string{"C01", "C02", "C08", "C13"} {
+		register(c, "", reqMemo)
 	}
+	register("C14", "", ruleMemoKeyIn("in the caching planner", "planner.(*CachedPlanner).Plan"))
+	register("C17", "", ruleMemoKeyIn("on the per-event path", scSubEvent.roots...))
 	register("C13", "", ruleArrivalOrder)
 	register("X6", "debug: R6 over whole module", ruleErr(errScope{label: "all", pkgs: []string{"pebbles", "common", "executor", "format", "gqlerrors", "introspection", "merger", "planner", "queryer", "requests"}}))
 }
